@@ -329,6 +329,7 @@ structure Req where
   site : Nat            -- 0 compress_stream → encode_data, 1 process_metadata → encode_data, 2 a block of compress_stream_fast
   lo : Nat              -- last_processed_pos_ (sites 0/1); bytes offered (site 2)
   hi : Nat              -- input_pos_
+  lf : Nat := 0         -- last_flush_pos_ (sites 0/1): a meta-block covers `[lf, hi)`
   isLast : Bool
   forceFlush : Bool
 deriving Repr, DecidableEq, Inhabited
@@ -401,7 +402,7 @@ def encPayload (s : St) (ans : Ans) (w0 w : Writer) (hdr : Nat) (isLast forceFlu
 
 /-- the request `encode_data` issues in state `s` -/
 def reqOf (s : St) (site : Nat) (isLast forceFlush : Bool) : Req :=
-  { site := site, lo := s.lastProcessedPos, hi := s.inputPos, isLast := isLast, forceFlush := forceFlush }
+  { site := site, lo := s.lastProcessedPos, hi := s.inputPos, lf := s.lastFlushPos, isLast := isLast, forceFlush := forceFlush }
 
 /-- `get_brotli_storage(size)`: the staging buffer only grows -/
 def growStorage (s : St) (want : Nat) : St :=
@@ -727,7 +728,7 @@ def callFuel (s : St) (inLen cap : Nat) : Nat := 4 * inLen + 2 * (s.pending.leng
 structure OracleOK (o : Oracle) : Prop where
   result_true : ∀ k r, (o k r).result = true
   emits_when_forced : ∀ k r, (r.isLast ∨ r.forceFlush) → (o k r).emit = true
-  fits : ∀ k r, (o k r).bits.length ≤ 8 * (2 * (r.hi - r.lo) + 503)
+  fits : ∀ k r, (o k r).bits.length ≤ 8 * (2 * (if r.site = 2 then r.lo else max (r.hi - r.lo) (r.hi - r.lf)) + 500)
 
 /-- the oracle does not look at the invocation counter (it is a function of the request) -/
 def Oracle.Functional (o : Oracle) : Prop := ∀ k k' r, o k r = o k' r
